@@ -317,3 +317,37 @@ func inverseTables(r *core.Run, rule, nameA, nameB string, a, b map[string]strin
 		}
 	}
 }
+
+// callerCounts counts, per "caller -> calleeName" edge, the call sites resolving to pred: `direct` only in the
+// caller's own body (what the pinned tables record), `deep` additionally through static module callees (depth 2),
+// so that extracting a call into a helper function does not lower the measured count.
+func callerCounts(w *core.World, pred func(*types.Func) bool, nameOf func(*types.Func) string) (direct, deep map[string]int) {
+	d := map[string]map[string]int{}
+	for _, fn := range w.SrcFuncs() {
+		if fn.Parent() != nil {
+			continue
+		}
+		for _, c := range core.CallsTo(fn, true, pred) {
+			k := core.SSAKey(fn)
+			if d[k] == nil {
+				d[k] = map[string]int{}
+			}
+			d[k][nameOf(core.Callee(c))]++
+		}
+	}
+	direct, deep = map[string]int{}, map[string]int{}
+	for k, items := range d {
+		for it, n := range items {
+			direct[k+" -> "+it] = n
+			deep[k+" -> "+it] = n
+		}
+	}
+	for k, items := range w.DeepCounts(d, 2) {
+		for it, n := range items {
+			if n > deep[k+" -> "+it] {
+				deep[k+" -> "+it] = n
+			}
+		}
+	}
+	return direct, deep
+}
